@@ -137,6 +137,6 @@ pub fn property() -> Property {
         rule: "cases are (table bytes, offset); oracle = NUL-scan reference: inside the table with a NUL after it -> Ok(exact sub-slice starting at table+offset), otherwise Err of kind BadOffset or StringTableMissingNul; get = from_utf8(get_raw) or Err. small: exhaustive over every table of length 0..7 over the alphabet {NUL,'a',0xC3,0xA9} and every offset 0..len+2. random: proptest choice sequences, tables up to 4 KiB with varying NUL density, offsets incl. len-1, len, len+1, boundary values and usize::MAX. Non-trivial: lookup at a non-zero offset that succeeds, or any failing lookup; distinct by case hash.",
         assumptions: &["error kinds are only required to be one of the two the statement names, not a particular one per situation"],
         subs: vec![Sub::enumerated("small", oracle_small, enum_small, true), Sub::new("random", oracle_random, 64, 3_000_000, 40_000_000)],
-        extra: None,
+        extras: vec![],
     }
 }
